@@ -27,6 +27,7 @@ struct session
 	std::string target = "up";     // up | refuse | unres
 	std::string mutate;            // "" or field to corrupt
 	int mutval = 0; int eof_at = -1; // close after this many bytes of the negotiation were sent
+	int flood = 0;                   // bytes of garbage sent right behind the first message (over-long fields)
 	std::int64_t start_at = 0; int up_bytes = 0, down_bytes = 0; std::vector<int> cuts; int ndgrams = 0;
 	std::string udp_via = "ip";
 	// runtime
@@ -271,12 +272,14 @@ struct socks_run
 			});
 		};
 		(*arm)();
-		if (s.udp_via == "short-first")
+		if (s.udp_via == "short-first" || s.udp_via == "short-name-first")
 		{
 			// a datagram shorter than its own header must be ignored, not relayed, and must not hurt the relay
 			at(rec.last_t + 20000, [this, sp]() {
 				if (!sp->usock) return;
 				error_code ec3; std::string d("\0\0\0\1\x0a", 5);
+				// ... or a host-name header that announces more characters than the datagram holds
+				if (sp->udp_via == "short-name-first") d = std::string("\0\0\0\3\x05qz", 7);
 				json::object e; e["e"] = "UdpShort"; e["s"] = sp->id; ev(e);
 				sp->usock->send_to(asio::buffer(d), udp::endpoint(asio::ip::make_address("10.0.0.1"), std::uint16_t(sp->relay_port)), 0, ec3);
 			});
@@ -416,7 +419,7 @@ struct socks_run
 			std::unique_ptr<session> s(new session);
 			s->id = int(geti(so, "id")); s->ver = version; s->cmd = gets(so, "cmd", "connect"); s->addr = gets(so, "addr", "ip");
 			s->target = gets(so, "target", "up"); s->mutate = gets(so, "mutate"); s->mutval = int(geti(so, "mutval"));
-			s->eof_at = int(geti(so, "eof_at", -1)); s->start_at = geti(so, "start_at");
+			s->eof_at = int(geti(so, "eof_at", -1)); s->start_at = geti(so, "start_at"); s->flood = int(geti(so, "flood", 0));
 			s->up_bytes = int(geti(so, "up")); s->down_bytes = int(geti(so, "down")); s->ndgrams = int(geti(so, "ndgrams"));
 			s->udp_via = gets(so, "udp_via", "ip");
 			if (so.find("cuts") != so.end()) for (auto const& c : so.at("cuts").as_array()) s->cuts.push_back(int(c.as_int64()));
@@ -426,7 +429,7 @@ struct socks_run
 			// 1..3 offered methods (all "no authentication") is a well-formed greeting
 			if (s->mutate == "nmethods" && s->mutval >= 1 && s->mutval <= 3 && version == 5) s->mutate.clear();
 			json::object d; d["cmd"] = s->cmd; d["target"] = s->addr == "badname" ? std::string("unres") : s->target; d["byname"] = s->addr != "ip";
-			d["valid"] = s->mutate.empty() && s->eof_at < 0; d["up"] = s->up_bytes; d["down"] = s->down_bytes; d["ndgrams"] = s->ndgrams;
+			d["valid"] = s->mutate.empty() && s->eof_at < 0 && s->flood == 0; d["up"] = s->up_bytes; d["down"] = s->down_bytes; d["ndgrams"] = s->ndgrams;
 			d["addr"] = s->addr;
 			{
 				int cb = s->cmd == "connect" ? 1 : s->cmd == "bind" ? 2 : 3;
@@ -435,6 +438,8 @@ struct socks_run
 			}
 			d["cmdbyte_valid"] = !(s->mutate == "command" && (s->mutval < 1 || s->mutval > (version == 4 ? 2 : 3)));
 			d["reaches_request"] = (version == 4 || (s->mutate != "version" && s->mutate != "nmethods" && s->mutate != "method")) && (s->eof_at < 0 || s->eof_at >= int(s->negotiation.size() + (version == 5 ? 2 : 0)));
+			// whatever follows an over-long field is read as the next message: any command may be counted
+			if (s->flood > 0) { d["cmdname"] = "any"; d["reaches_request"] = true; }
 			sd[std::to_string(s->id)] = d;
 			session* sp = s.get();
 			sessions.push_back(std::move(s));
@@ -445,6 +450,7 @@ struct socks_run
 					if (ec) { json::object e; e["e"] = "Closed"; e["s"] = sp->id; e["ec"] = ec_name(ec); e["stage"] = -1; e["leftover"] = 0; ev(e); sp->eof = true; return; }
 					arm_read(*sp);
 					send_bytes(*sp, sp->negotiation, sp->ver == 5 ? "greeting" : "request");
+					if (sp->flood > 0) send_bytes(*sp, std::string(std::size_t(sp->flood), '\1'), "flood");
 				});
 			});
 		}
